@@ -82,6 +82,7 @@ ROLES = {
     "bang": (0x21, lambda: [0x21, 0x22, 0x26, 0x2A, 0x3B, 0x3F, 0x40]),
     "SP": (0x20, lambda: [0x20]),
     "TAB": (0x09, lambda: list(range(0x00, 0x20))),
+    "DEL": (0x7F, lambda: [0x7F]),
     # 2 bytes
     "eac": (0xE9, lambda: _pool(lambda c: _pv(c) and _ulen(c) == 2 and len(_dec(c).split()) == 2 and not _dec(c).startswith("<")
                                 and c not in db()["lower"] and int(_dec(c).split()[0], 16) < 0x80, 0xC0, 0x24F)),
@@ -133,6 +134,9 @@ ROLES = {
     "unas": (0x378, lambda: [0x378, 0x379, 0x530, 0x557]),
     "jamo": (0x1100, lambda: list(range(0x1100, 0x1113))),
     "hcj": (0x3131, lambda: [0x3131, 0x3134, 0x3137, 0x3139]),
+    "jamoV": (0x1161, lambda: list(range(0x1161, 0x1176))),
+    "jamoT": (0x11A8, lambda: list(range(0x11A8, 0x11C3))),
+    "hsyl": (0xAC00, lambda: [0xAC00, 0xAC1C, 0xB098, 0xD55C]),
     "thai": (0xE01, lambda: list(range(0xE01, 0xE2F))),
     # 4 bytes
     "goth": (0x10330, lambda: list(range(0x10330, 0x1034A))),
